@@ -68,8 +68,12 @@ def repo_value(spec, ov):
         return sut.to_repo(W.const(ov[2]))
     if ov[0] == 'cell':
         return sut.override_value(W.const(ov[2]))
-    rows = ov[2]
-    return sut.np.asarray([[sut.to_repo(W.const(v)) for v in row] for row in rows], object)
+    rows = [[sut.to_repo(W.const(v)) for v in row] for row in ov[2]]
+    # the two ways a caller writes a block of values: a nested list or an object array (chosen by the override itself,
+    # so that a case stays a pure function of its JSON)
+    if len(repr(ov[2])) % 2:
+        return rows
+    return sut.np.asarray(rows, object)
 
 
 def to_inputs(m, spec, ovs):
